@@ -297,11 +297,8 @@ theorem rematerialise_cache (s : St) (ts : List Ent) : (s.rematerialise ts).1.ca
   unfold St.rematerialise
   apply forEach_rel (fun s s' => s'.cache = s.cache) (fun _ => rfl) (fun _ _ _ h1 h2 => h2.trans h1)
   intro s1 e
-  split
-  · split
-    · exact recheckFromCache_cache _ _ _ _
-    · rfl
-  · rfl
+  repeat' split
+  all_goals first | rfl | exact recheckFromCache_cache _ _ _ _
 
 theorem foldl_removeObj_recs (l : List Addr) (s : St) : (l.foldl St.removeObj s).recs = s.recs := by
   induction l generalizing s with
